@@ -4,7 +4,9 @@
 mod c12;
 mod c14;
 mod c15;
+mod c16;
 mod common;
+mod facts;
 mod lang;
 
 fn main() {
@@ -17,6 +19,11 @@ fn main() {
         "c12-sweep" => c12::sweep(rest),
         "c07-record" => lang::literals(rest),
         "c08-record" => lang::display(rest),
+        "facts-list" => facts::list(rest),
+        "c16-record" => c16::facts(rest),
+        "c17-record" => c16::codec(rest),
+        "c18-record" => c16::describe(rest),
+        "c19-record" => c16::cli(rest),
         "c15-helper" => c15::helper(rest),
         "c15-replay" => c15::replay(rest),
         _ => {
